@@ -93,6 +93,11 @@ def plain_programs():
                                      N('C', I('p1', 'A'), mode='thread', generic=True),
                                      N('D', I('p1', 'B'), I('p2', 'C'), mode='coro', generic=True)], 'A', 'D',
                  tags=['plain', 'generic']))
+    # coroutine bodies that carry the non_async tag, next to inline and pooled siblings
+    out.append(P('fan_tagged', [N('A', cotag=True), N('B', I('p1', 'A'), mode='inline'), N('C', I('p1', 'A'), cotag=True),
+                                N('D', I('p1', 'A'), mode='thread'), N('E', I('p1', 'A'), cotag=True),
+                                N('F', I('p1', 'B'), I('p2', 'C'), I('p3', 'D'), I('p4', 'E'))], 'A', 'F',
+                 tags=['plain', 'modes']))
     out.append(P('diamond_deep', [N('A'), N('B', I('p1', 'A')), N('C', I('p1', 'B')), N('D', I('p1', 'A')),
                                   N('E', I('p1', 'C'), I('p2', 'D'))], 'A', 'E', tags=['plain']))
     return out
@@ -118,7 +123,7 @@ def retry_programs():
     out = []
     base = [N('A'), N('B', I('p1', 'A'), attempts=3, delay=0.3), N('C', I('p1', 'A')),
             N('D', I('p1', 'B'), I('p2', 'C'))]
-    p = P('retry3', base, 'A', 'D', tags=['retry'])
+    p = P('retry3', base, 'A', 'D', tags=['retry', 'plain'])
     out += variants(p, [
         [R({'B': ['raise:E1', 'ok']})],
         [R({'B': ['raise:E1', 'raise:E2', 'ok']})],
@@ -134,7 +139,7 @@ def retry_programs():
         [R({'B': ['raise:B1', 'ok']})],
     ], ['e1_ok', 'e2', 'e1_e2', 'base'])
     p = P('retry_default', [N('A'), N('B', I('p1', 'A'), attempts=2, delay=0.1, use_default=True),
-                            N('C', I('p1', 'A')), N('D', I('p1', 'B'), I('p2', 'C'))], 'A', 'D', tags=['retry'])
+                            N('C', I('p1', 'A')), N('D', I('p1', 'B'), I('p2', 'C'))], 'A', 'D', tags=['retry', 'plain'])
     out += variants(p, [
         [R({'B': ['raise:E1', 'raise:E1']})],
         [R({'B': ['raise:E1', 'ok']})],
@@ -147,7 +152,7 @@ def retry_programs():
         [R({'B': ['raise:E1', 'raise:E2']})],
     ], ['e2_dflt', 'e1_e2_dflt'])
     p = P('retry_two', [N('A'), N('B', I('p1', 'A'), attempts=2, delay=0.2), N('C', I('p1', 'A'), attempts=3, delay=0.1),
-                        N('D', I('p1', 'B'), I('p2', 'C'))], 'A', 'D', tags=['retry'])
+                        N('D', I('p1', 'B'), I('p2', 'C'))], 'A', 'D', tags=['retry', 'plain'])
     out += variants(p, [
         [R({'B': ['raise:E1', 'ok'], 'C': ['raise:E1', 'raise:E1', 'ok']})],
         [R({'B': ['raise:E1', 'raise:E1'], 'C': ['raise:E1', 'raise:E1', 'ok']})],
@@ -380,6 +385,12 @@ def rec_programs():
         [R(recreq={'D': 0})], [R(recreq={'D': 1})], [R(recreq={'D': 2})], [R(recreq={'D': 3})],
         [R({'M': ['raise:E1']}, recreq={'D': 1})],
     ], ['it0', 'it1', 'it2', 'it3_exhaust', 'mfails'])
+    # the start node (and the others) declared through build_node with a constant dependency
+    nodes_g = [N('A'), N('S', I('p1', 'A'), generic=True), N('M', I('p1', 'S'), generic=True, mode='thread'),
+               N('D', I('p1', 'M'), generic=True), N('Z', I('p1', 'A')),
+               N('O', RC('p1', 'S', 'D', 2), I('p2', 'Z'), generic=True)]
+    out += variants(P('rec_generic', nodes_g, 'A', 'O', tags=['rec', 'generic']),
+                    [[R(recreq={'D': 1})], [R(recreq={'D': 0})], [R(recreq={'D': 3})]], ['it1', 'it0', 'it3_exhaust'])
     nodes_d = [N('A'), N('S', I('p1', 'A')), N('M', I('p1', 'S')), N('D', I('p1', 'M'), use_default=True),
                N('Z', I('p1', 'A')), N('O', RC('p1', 'S', 'D', 2), I('p2', 'Z'))]
     p = P('rec_default', nodes_d, 'A', 'O', tags=['rec'])
